@@ -2,12 +2,12 @@ SPECIFICATION Spec
 CONSTANTS
   Contents = {"A", "B"}
   MaxOps = 3
-  Kinds = {"write", "replace"}
-  Fates = {"deliver", "drop", "dup"}
-  Rejects = {"B"}
+  Kinds = {"write"}
+  Fates = {"drop"}
+  Rejects = {}
   CbOps = "one"
   Recheck = TRUE
-  Post = "forget"
+  Post = "rearm"
   Record = "always"
   Export = TRUE
-INVARIANTS Emit
+INVARIANTS EmitHazard
